@@ -467,6 +467,11 @@ func installNatives(it *Interp) {
 		s, _ := args[0].(string)
 		return []Value{&ErrV{s}}, nil
 	}
+	n["errors.Is"] = func(it *Interp, args []Value) ([]Value, error) {
+		a, _ := args[0].(*ErrV)
+		b, _ := args[1].(*ErrV)
+		return []Value{a != nil && a == b}, nil
+	}
 	n["fmt.Fprintf"] = func(it *Interp, args []Value) ([]Value, error) {
 		f, ok := args[1].(string)
 		if !ok {
